@@ -38,7 +38,7 @@ EOF_SPECIALS = ["#", "# c", "x = 1 # c", "<", "a <", "%", "a %", "'", '"', '"abc
                 "9223372036854775808", "\u0661", "1\u0661", "<<~EOS\n a\nEOS\n", "<<EOS", "%w[a b]", "%i(a)", "%=", "#{", "*=", "*a=b", "nil",
                 "true", "False", "Foo", "FOO", "F", "FO", ":sym", "::", "A::B", "a: 1", "@a", "$g", "\x00", "a\x00b", "a = 1\n\x00\n1.nope\n",
                 "\x00\x00", "`", "a`b", "\u3000x", "x\u00a0y", "\ufffd", "\xff\xfe", "a\r\nb", "a;b", "1.\n", "1.\x00", ". ", ".\n", "&x", "& x", "&&",
-                "x&.y", "[1,2].each{|v|v}", "a ? b : c", "def f(a, b = 1, *c, k:, **o, &blk)\nend\n", "'it''s'", "\"a\\\"b\"", "\"a\nb\"\n\"a\nb\"\n1.x"]
+                "x&.y", "[1,2].each{|v|v}", "a ? b : c", "def f(a, b = 1, *c, k:, **o, &blk)\nend\n", '"hello #{name', '"#{', '"x#{"y"}z"', '"a#{b}c"\n', "'#{x", "'it''s'", "\"a\\\"b\"", "\"a\nb\"\n\"a\nb\"\n1.x"]
 
 
 def to_bytes(runes):
